@@ -213,7 +213,7 @@ def run(facts, res):
         for bi, t in a.calls():
             if t.callee is None or t.callee.name not in ("drain", "splice"):
                 continue
-            rg = peel(du.operand_term(t.args[1], 16))
+            rg = peel(du.operand_term(t.args[1], 40))
             if rg[0] != "agg" or not rg[1].endswith("ops::Range"):
                 continue
             s_i = tables.index_consts(rg[3][0])
@@ -221,7 +221,7 @@ def run(facts, res):
             if t.callee.name == "drain":
                 d_ok = s_i == {2} and e_i == {1, 2} and any(x[0] == "binop" and x[1].startswith("Add") for x in walk(rg[3][1]))
             else:
-                items = tables.index_consts(du.operand_term(t.args[2], 16))
+                items = tables.index_consts(du.operand_term(t.args[2], 40))
                 i_ok = s_i == {1} and e_i == {1} and items == {2}
         res.instance("E2", "applier ranges: delete = drain(op[2] .. op[2]+op[1]) %s; insert = splice(op[1]..op[1], op[2]) %s" % (d_ok, i_ok), a.loc())
         if not (d_ok and i_ok):
